@@ -39,6 +39,8 @@ theorem isolated_preserves (w w' : W) (s : Step) (hs : s.isolated = true) (r : R
       cases p with
       | T => exact absurd hq h7
       | Q => simp only [hq, setDb]; exact ⟨h1, h2, h3, h4, h5, h6, by simp [hq]⟩
+  · -- bankOther: nothing the block can see moves
+    exact ⟨h1, h2, h3, h4, h5, h6, h7⟩
   · -- flush: the query's handle never designates the block's StateDB, so only the query's own branch is written
     simp only [exec, handle]
     cases hq : w.hQ with
@@ -98,6 +100,7 @@ theorem block_step_congr (w w' : W) (s : Step) (r : Rel w w') : Rel (exec .T w s
         have hp' : w'.ptr = some .T := by rw [← h3, hp]
         simp only [hp, hp', setDb, db, store]
         exact ⟨by simp [h1], by simp [h1, h2], by simp [hp, hp'], h4, by simp [hp], h6, h7⟩
+  | bankOther a d => exact ⟨h1, h2, h3, h4, h5, h6, h7⟩
   | commit =>
     simp only [exec, handle]
     cases hh : w.hT with
@@ -210,7 +213,31 @@ theorem C09_value_carrying_precompile_query_isolated (sched : List Bool) :
     (run genesis blockTx ethCallValuePrecompileQuery sched).storeT = (runAlone genesis blockTx).storeT :=
   C09_noninterference_partial genesis rfl rfl rfl blockTx _ (by decide) sched
 
-/-! ### T1 (regenerated from x/evm/keeper/statedb.go on every run) -/
+/-- **C09 (eth_call that runs `FunToken.sendToBank` of a coin-born mapping).** ERC20 burn in the private StateDB, the flush at the
+    precompile entry, a bank operation on another denom: under every interleaving the block commits what it commits alone. -/
+theorem C09_sendToBank_of_other_denom_query_isolated (sched : List Bool) :
+    (run genesis blockTx ethCallSendToBankOther sched).storeT = (runAlone genesis blockTx).storeT :=
+  C09_noninterference_partial genesis rfl rfl rfl blockTx _ (by decide) sched
+
+/-! ### T1 (regenerated from x/evm/keeper/statedb.go and bank_extension.go on every run) -/
+
+/-- every override of the `NibiruBankKeeper` mirrors a balance into the designated StateDB only under
+    `findEtherBalanceChangeFromCoins(<the operation's coins>)`: bank operations on other denoms are not mirrored (`bankOther`) -/
+theorem fact_C09_bank_sync_only_for_the_gas_token :
+    Generated.bankSyncGuards =
+      ["NibiruBankKeeper.BurnCoins: findEtherBalanceChangeFromCoins(coins)",
+       "NibiruBankKeeper.DelegateCoins: findEtherBalanceChangeFromCoins(coins)",
+       "NibiruBankKeeper.DelegateCoinsFromAccountToModule: findEtherBalanceChangeFromCoins(amt)",
+       "NibiruBankKeeper.InputOutputCoins: findEtherBalanceChangeFromCoins(input.Coins)",
+       "NibiruBankKeeper.InputOutputCoins: findEtherBalanceChangeFromCoins(output.Coins)",
+       "NibiruBankKeeper.MintCoins: findEtherBalanceChangeFromCoins(coins)",
+       "NibiruBankKeeper.SendCoins: findEtherBalanceChangeFromCoins(coins)",
+       "NibiruBankKeeper.SendCoinsFromAccountToModule: findEtherBalanceChangeFromCoins(coins)",
+       "NibiruBankKeeper.SendCoinsFromModuleToAccount: findEtherBalanceChangeFromCoins(coins)",
+       "NibiruBankKeeper.SendCoinsFromModuleToModule: findEtherBalanceChangeFromCoins(coins)",
+       "NibiruBankKeeper.UndelegateCoins: findEtherBalanceChangeFromCoins(coins)",
+       "NibiruBankKeeper.UndelegateCoinsFromModuleToAccount: findEtherBalanceChangeFromCoins(amt)"] := by decide +kernel
+
 
 /-- `Keeper.SetAccBalance` — the write-back of a StateDB into its context, reached from `Commit` and from the intermediate flush at
     every precompile entry, in DeliverTx and in queries alike — reads the balance through the wrapper and performs every coin
